@@ -107,3 +107,15 @@ claim("C13",
   "Decides for all argument values at once what a builder can get wrong while still compiling: an IE whose id, Present index and allocated alternative disagree (the encoder refuses it or dereferences nil), a message header whose class/procedure code/Value.Present disagree with each other or with TS 38.413, an identifier parameter stored in the wrong IE, through a narrowing conversion, replaced by a constant or not appended, a wrapper that reorders arguments or swallows the encoder's error, a mandatory IE missing/duplicated/with the wrong criticality in a message the emulator sends, a PLMN that is not the announced one, the IPv4 octets of the GTP address, and the refusal of out-of-range INTEGERs (value < lb, value > ub on non-extensible types such as the three identifier types).",
   "Level 'other'. Not decided: that encoding succeeds for every in-range argument beyond these facts (sizes of nested lists, transfer contents); bit-exactness of the encoding (C03). TS 38.413 9.2 tables transcribed by hand for 9 messages. Two defects found by these rules were repaired (F16, F19).",
   "DESIGN.md §5 C13")
+
+claim("C01",
+  "procedure-script analysis of ManageNGSetup/RegisterUE: all entry-to-return paths enumerated over SSA with send/receive/derive/assign events, every sent buffer resolved by def-use to its build-and-encode wrapper, NAS constructor and security envelope (header type, context flags); access-path parameter-flow rules (own NGAP ids in their roles, AMF id from IE 0 of the decoded DownlinkNASTransport, RAND/AUTN/RES* flow, SUCI of own SUPI, serving-network-name branches); positional-IE justification against TS 38.413 9.2; plus the complete rule sets of C03, C05, C06, C07, C11 and C13 run as components",
+  "Decides, for every configuration and every AMF choice at once, the structural conditions the registration exchange needs: the five uplink messages are the right ones in the right order on every path, each answer follows a receive, Registration Request and Authentication Response go out plain, Security Mode Complete with header type 4 and a new context right after the key derivation, Registration Complete with header type 2 and no COUNT reset; the AMF-assigned id is learned from the right IE of the right message before its first use and handed, with the RAN id, in the right parameter of every builder; RAND and AUTN of the received challenge feed the derivation and its RES* the response; the serving network name pads the MNC exactly when it has two digits; the announced PLMN is the SUCI's; main wires configuration to drivers unchanged; PPID 60. The component rule sets decide the codec, key derivation, NAS protection, cipher, SUCI and builder layers underneath (see those properties).",
+  "Level 'other'. Not decided: acceptance by a real AMF for every runtime value (no AMF model is executed), that the AMF's answers have the expected type, the NAS wire layout of the messages (C09, separate because it carries listed findings on messages this exchange does not use).",
+  "DESIGN.md §5 C01")
+
+claim("C02",
+  "procedure-script analysis of EstablishPDU/ServiceRequest/ReleasePDU/DeregisterUE/ModifyPDU (all paths, send/receive events, resolved wrappers, NAS constructors and security envelopes); identifier-flow rules incl. re-learning of the AMF id after a new InitialUEMessage; positional-IE vs select-by-id analysis of received IE lists; interval + conversion-chain analysis of the PDU session identity; symbolic loop-bound ordering for main's test-mode loops (list-growth phis, counted-loop recognition, LE(bound, registrations) through stgutg.Min); all-paths check of stgutg.Min; dominance ordering of the procedure loops; who-may-write rule for COUNT and keys; plus the complete rule sets of C06, C12, C13 and C16 as components",
+  "Decides for all UE counts, repetition counts and network-assigned values at once: every lifecycle driver sends exactly its scripted messages, protected under the current context and never with a COUNT reset; each acts with its own UE's ids and security context; ids assigned by the AMF are read from the message that assigns them; received IE lists are read by id or at positions the standard guarantees; one PDU session identity per procedure; EstablishPDU reports exactly what it decoded and main registers exactly that; no list index can pass the number of registered UEs for any configured repetition count; service and release never run for a UE without an established session; procedures run in lifecycle order; COUNT has a single writer. Two defects found by these rules were repaired (F20, F23); two are listed (F09, F21).",
+  "Level 'other'. Not decided: acceptance by a real AMF/SMF, timing (the drivers pace themselves with sleeps), that answers have the expected type. Known findings: F09 (PDU session id = SUPI mod 10000, NAS/NGAP disagree and NGAP refuses > 255), F21 (release response sent without reading the command).",
+  "DESIGN.md §5 C02")
